@@ -47,7 +47,16 @@ def band_instances(ctx, rule):
                         zero = True
                     if nm in ("gt", "lt") and o is False and len(ks) == 2:
                         l, r = ks
-                        is_limit = any(tag(x) == "field" and payload(x)[0] in ("0", "1") for x in sym.walk(r)) or "price_boundaries" in sym.show(r, 6)
+                        def _from_call(x):
+                            if tag(x) != "field" or not kids(x):
+                                return False
+                            b0 = kids(x)[0]
+                            while tag(b0) == "unwrap":
+                                b0 = kids(b0)[0]
+                            return tag(b0) == "call" and ix.call_target(b0) is not None
+                        # a bound: a component of the value a workspace function returned (tuple .0/.1 or a named field
+                        # of a band struct) - never a constant
+                        is_limit = any(_from_call(x) for x in sym.walk(ix.inline(r)))
                         has_amount = any(tag(x) == "param" and payload(x)[2] in ("quote_asset_amount", "base_asset_amount") for x in sym.walk(l))
                         if not is_limit:
                             continue   # a comparison with a constant (0, MAX) is no band test: both real bounds are required
